@@ -145,3 +145,7 @@ for cls in ('Reaction',):
                         'self.get_%s_act(rev=False, %s) - self.get_%s_act(rev=True, %s) == self.get_delta_%s(%s)' % (g, CALL, g, CALL, g, CALL)))
         lemma('%s:dimensional:%s' % (cls, g), P, forall=dict(self=rx(), T=T, P=PR, R0_kwargs=R0_BLOCK), given=STOICH_POS + ['T > 0'],
               prove=rel)
+
+# ---- shared helpers behind every reaction getter: condition routing, the string constructor, the shared reference object ----
+from contracts import helpers
+helpers.install(P, 'kwargs', 'reaction_parser', 'references')
